@@ -204,6 +204,17 @@ func NewGenSource(t *rapid.T, p *Profile) *GenSource {
 		q.EarlyQuiet, q.OneGenesisUnbond = p.EarlyQuiet, p.OneGenesisUnbond
 		p = &q
 	}
+	if tier() == "thorough" && pct(t, 35, "largeCase") {
+		// deeper bounds in the thorough tier: longer histories, fuller blocks, more actors and validators
+		q := *p
+		q.MaxBlocks = p.MaxBlocks * 2
+		q.MaxTxs = p.MaxTxs + 4
+		q.Users = p.Users + 3
+		if q.MaxVals < 9 {
+			q.MaxVals = p.MaxVals + 3
+		}
+		p = &q
+	}
 	s := &GenSource{t: t, P: p}
 	s.g = s.genGenesis()
 	s.nBlocks = p.MinBlocks + unif(t, p.MaxBlocks-p.MinBlocks+1, "nBlocks")
